@@ -13,11 +13,24 @@
    cache (Size), the chain's stable height and which blocks of the universe the chain has.  obs is that reading at the
    previous quiescence point; EVERY step - of either layer, and opening a connection - must stay in the envelope of
    WireSeq: the caches take up at most what the step's input delivered (nblk / nconf: blocks / confirm packets in the
-   frames sent, as counted by the sender), and of the universe's blocks only those that can wait at all. *)
+   frames sent, as counted by the sender), and of the universe's blocks only those that can wait at all.
+
+   The receive-side layer (StopReading / Resume / ResetConn / HangUp / Deadline / StallOut): the node's end of the connection
+   keeps book of the node's writes: wpend = how many are in flight when the step is observed, wstuck = the writers still in
+   flight when the deadline the node gave them (as honoured by the connection) plus the grace period was over.  While the
+   remote does not take the node's bytes (rx # "read") goroutines may queue for the peer's write lock behind the write in
+   flight - until its deadline: lock waiters are judged where nothing is in flight.  A step that lets the node's deadline pass,
+   hangs up, resets or resumes is observed only when the node has settled (nothing in flight, nothing able to run) or the bound
+   is over; then: nothing in flight, nobody waiting for a lock, a malformed input sent meanwhile has closed the connection (due),
+   after a hang-up / a stall to the end the connection is closed, and a closed connection's peer is forgotten. *)
 EXTENDS WireClasses, WireSeq, TraceBase
 CONSTANTS AllowedDev, MaxFrameK, SlackK, C
-VARIABLES phase, tainted, obs
-tv == <<phase, tainted, obs, l>>
+VARIABLES phase, tainted, obs,
+          rx,     \* what the remote does with the node's writes: "read" | "stall" | "rst"
+          due,    \* the node owes closing the connection (malformed input behind a write in flight)
+          owed    \* the node owes the bystander a transaction the remote sent (E.by: a bystander is connected; E.bgot: TxsMsg frames it got so far)
+tv == <<phase, tainted, obs, rx, due, owed, l>>
+OpenPhases == {"PreHs", "OutHs", "ProtoHs", "Est"}
 
 ObsInit == [ids |-> {}, nb |-> 0, nc |-> 0, known |-> {"G"}, stable |-> 0]
 HasObs(e) == "bc" \in DOMAIN e
@@ -47,18 +60,32 @@ DevMatch(t, e) == CASE t[7] = "panic" -> ~e.alive
                     [] t[7] = "alloc" -> e.alive /\ e.allocK > Bound(e.readK)
                     [] OTHER -> FALSE
 
-TReset == Ev("reset") /\ phase' = "Idle" /\ tainted' = FALSE /\ obs' = ObsInit
+\* receive side: the clauses that hold whatever the remote does with the node's writes
+HealthyRx(e) == /\ e.alive /\ e.allocK <= Bound(e.readK) /\ Len(e.wstuck) = 0
+                /\ (e.wpend = 0 => Len(e.blocked) = 0)
+\* ... and once the node has settled
+Settled(e) == e.alive /\ e.allocK <= Bound(e.readK) /\ Len(e.wstuck) = 0 /\ e.wpend = 0 /\ Len(e.blocked) = 0 /\ e.quiet
+Fresh == rx' = "read" /\ due' = FALSE
+\* the bystander - a second remote party that behaves - stays connected whatever the first one does, and a good transaction of the
+\* first one (on an established connection) is passed on to it: at once when the node's writes to the first one succeed or fail at
+\* once, at the latest when the node has settled
+ByOK(e) == e.by => ~e.bclosed
+ByPeers(e) == IF e.by THEN 1 ELSE 0       \* the peers the node knows once the first remote's connection is closed
+ByTx(e) == e.by /\ e.a[1] = "Txs_Good" /\ phase = "Est"
+
+TReset == Ev("reset") /\ phase' = "Idle" /\ tainted' = FALSE /\ obs' = ObsInit /\ Fresh /\ owed' = FALSE
 \* opening a connection in either direction: the node is alive, nothing is deadlocked and it waits for the remote's handshake packet
 \* (when dialing: after having sent its own request, which the remote could decrypt - E.req - otherwise the binding is broken)
 TConnect == /\ Ev("Connect") /\ ~tainted /\ "dead" \notin DOMAIN E
             /\ E.alive /\ Len(E.blocked) = 0 /\ ~E.closed /\ E.allocK <= Bound(0) /\ Proportionate(E, <<>>)
-            /\ phase' = "PreHs" /\ obs' = ObsOf(E) /\ UNCHANGED tainted
+            /\ phase' = "PreHs" /\ obs' = ObsOf(E) /\ Fresh /\ UNCHANGED <<tainted, owed>>
 TDial == /\ Ev("Dial") /\ ~tainted /\ "dead" \notin DOMAIN E
          /\ E.alive /\ Len(E.blocked) = 0 /\ ~E.closed /\ E.allocK <= Bound(0) /\ E.req = "ok" /\ Proportionate(E, <<>>)
-         /\ phase' = "OutHs" /\ obs' = ObsOf(E) /\ UNCHANGED tainted
-TRecv == /\ Ev("Recv") /\ ~tainted /\ "dead" \notin DOMAIN E
+         /\ phase' = "OutHs" /\ obs' = ObsOf(E) /\ Fresh /\ UNCHANGED <<tainted, owed>>
+TRecv == /\ Ev("Recv") /\ ~tainted /\ "dead" \notin DOMAIN E /\ rx = "read" /\ UNCHANGED <<rx, due, owed>>
          /\ \E t \in TRows(E.a[1], phase) :
               \/ /\ Healthy(E) /\ ReactOK(t[3], E, phase) /\ Proportionate(E, <<>>)
+                 /\ ByOK(E) /\ (ByTx(E) => E.bgot > 0)
                  /\ phase' = Np(t[3], E, phase) /\ tainted' = FALSE /\ obs' = ObsOf(E)
               \/ /\ ~(Healthy(E) /\ ReactOK(t[3], E, phase))
                  /\ t[6] \in AllowedDev /\ DevMatch(t, E) /\ UseDev(t[6])
@@ -66,24 +93,69 @@ TRecv == /\ Ev("Recv") /\ ~tainted /\ "dead" \notin DOMAIN E
 \* input for a connection the node has already closed (possible after an "any" class): nothing may happen
 TRecvClosed == /\ Ev("Recv") /\ ~tainted /\ "dead" \notin DOMAIN E /\ phase = "Closed"
                /\ Healthy(E) /\ E.closed /\ E.read = 0 /\ Proportionate(E, <<>>)
-               /\ obs' = ObsOf(E) /\ UNCHANGED <<phase, tainted>>
+               /\ obs' = ObsOf(E) /\ UNCHANGED <<phase, tainted, owed>> /\ Fresh
+\* ---------------------------------------------------------------- the receive-side layer
+\* input while the remote does not take (stall) or refuses (rst) the node's writes: the answer cannot be delivered, so keeping
+\* or dropping the connection are both fine - but malformed input closes it, now or (behind a write in flight) once that is over
+TRecvRx == /\ Ev("Recv") /\ ~tainted /\ "dead" \notin DOMAIN E /\ rx # "read" /\ phase \in OpenPhases
+           /\ \E t \in TRows(E.a[1], phase) :
+                /\ HealthyRx(E) /\ Proportionate(E, <<>>)
+                /\ t[3] = "close" => E.closed \/ E.wpend > 0
+                /\ (t[3] = "adv" /\ ~E.closed) => E.hs = "ok"
+                /\ E.closed => E.wpend = 0
+                /\ ByOK(E) /\ ((ByTx(E) /\ E.wpend = 0) => E.bgot > 0)
+                /\ owed' = (owed \/ ByTx(E))
+                /\ phase' = (IF E.closed THEN "Closed" ELSE IF t[3] = "adv" THEN NextPhase(phase) ELSE phase)
+                /\ due' = (~E.closed /\ (due \/ t[3] = "close"))
+                /\ rx' = (IF E.closed THEN "read" ELSE rx)
+           /\ obs' = ObsOf(E) /\ UNCHANGED tainted
+RxEv(name) == Ev(name) /\ ~tainted /\ "dead" \notin DOMAIN E /\ obs' = ObsOf(E) /\ ByOK(E) /\ UNCHANGED <<tainted, owed>>
+RxNp(e, nrx) == /\ phase' = (IF e.closed THEN "Closed" ELSE phase)
+                /\ rx' = (IF e.closed THEN "read" ELSE nrx)
+                /\ due' = FALSE
+\* the remote stops reading: nothing happens to the node
+TStopReading == /\ RxEv("StopReading") /\ phase \in OpenPhases /\ rx = "read"
+                /\ HealthyRx(E) /\ Proportionate(E, <<>>) /\ E.read = 0
+                /\ phase' = (IF E.closed THEN "Closed" ELSE phase) /\ rx' = (IF E.closed THEN "read" ELSE "stall") /\ UNCHANGED due
+\* bounded time: whatever was in flight is over, nobody waits, what was owed is done
+TSettle(name, nrx) == /\ RxEv(name) /\ phase \in OpenPhases
+                      /\ Settled(E) /\ Proportionate(E, <<>>) /\ E.read = 0
+                      /\ due => E.closed
+                      /\ owed => E.bgot > 0
+                      /\ E.closed => E.peers = ByPeers(E)
+                      /\ RxNp(E, nrx)
+TResume == rx = "stall" /\ TSettle("Resume", "read")
+TResetConn == TSettle("ResetConn", "rst")
+TDeadline == rx = "stall" /\ TSettle("Deadline", "stall")
+\* the remote hung up / neither read nor sent until the node gave up: the node has closed its end
+THangUp == TSettle("HangUp", "read") /\ E.closed
+TStallOut == rx = "stall" /\ TSettle("StallOut", "read") /\ E.closed
+\* a second remote party has connected and done the genuine handshakes: the node serves it like the first one
+TBystander == /\ RxEv("Bystander") /\ phase \in {"Est", "Closed"} /\ rx = "read"
+              /\ Healthy(E) /\ Proportionate(E, <<>>) /\ E.by /\ E.bhs = "ok" /\ E.allocK <= Bound(1)
+              /\ phase' = (IF E.closed THEN "Closed" ELSE phase) /\ UNCHANGED <<rx, due>>
+\* the same on a connection the node has already closed: nothing happens
+TRxClosed == /\ \E nm \in {"StopReading", "Resume", "ResetConn", "HangUp", "Deadline", "StallOut"} : RxEv(nm)
+             /\ phase = "Closed" /\ Settled(E) /\ E.closed /\ E.read = 0 /\ Proportionate(E, <<>>) /\ E.peers = ByPeers(E)
+             /\ UNCHANGED phase /\ Fresh
 \* ---------------------------------------------------------------- the sequence layer
 \* a decodable BlocksMsg / ConfirmMsg with arbitrary content on an established connection: the node stays healthy and
 \* its state in proportion; keeping or dropping the peer are both fine.  On a connection the node has closed nothing is read.
-SeqStep(ds) == /\ ~tainted /\ "dead" \notin DOMAIN E /\ phase \in {"Est", "Closed"}
+SeqStep(ds) == /\ ~tainted /\ "dead" \notin DOMAIN E /\ phase \in {"Est", "Closed"} /\ UNCHANGED <<rx, due, owed>>
                /\ Healthy(E) /\ Proportionate(E, ds)
                /\ phase = "Closed" => E.closed /\ E.read = 0
                /\ phase' = (IF E.closed THEN "Closed" ELSE phase) /\ obs' = ObsOf(E) /\ UNCHANGED tainted
 TSBlocks == Ev("SBlocks") /\ SeqStep(IF phase = "Est" THEN E.a[1] ELSE <<>>)
 TSConfirm == Ev("SConfirm") /\ SeqStep(<<>>)
 \* the manager's queue timer passed at least once, nothing was sent: whatever it did, the node is healthy and the caches did not grow
-TTick == /\ Ev("Tick") /\ ~tainted /\ "dead" \notin DOMAIN E /\ phase \in {"Est", "Closed"}
+TTick == /\ Ev("Tick") /\ ~tainted /\ "dead" \notin DOMAIN E /\ phase \in {"Est", "Closed"} /\ UNCHANGED <<rx, due, owed>>
          /\ Healthy(E) /\ Proportionate(E, <<>>) /\ E.read = 0
          /\ phase' = (IF E.closed THEN "Closed" ELSE phase) /\ obs' = ObsOf(E) /\ UNCHANGED tainted
 \* after an accepted known failure the node is dead / deadlocked / busy: the rest of the behaviour carries no information
 TSkip == /\ tainted /\ l <= Len(Trace) /\ Trace[l].ev # "reset" /\ "panic" \notin DOMAIN Trace[l]
-         /\ l' = l + 1 /\ UNCHANGED <<phase, tainted, obs>>
+         /\ l' = l + 1 /\ UNCHANGED <<phase, tainted, obs, rx, due, owed>>
 TraceNext == TReset \/ TConnect \/ TDial \/ TRecv \/ TRecvClosed \/ TSBlocks \/ TSConfirm \/ TTick \/ TSkip
-TraceSpec == l = 1 /\ phase = "Idle" /\ tainted = FALSE /\ obs = ObsInit /\ [][TraceNext]_tv
+             \/ TRecvRx \/ TStopReading \/ TResume \/ TResetConn \/ TDeadline \/ THangUp \/ TStallOut \/ TRxClosed \/ TBystander
+TraceSpec == l = 1 /\ phase = "Idle" /\ tainted = FALSE /\ obs = ObsInit /\ rx = "read" /\ due = FALSE /\ owed = FALSE /\ [][TraceNext]_tv
 PhaseOK == phase \in {"Idle", "PreHs", "OutHs", "ProtoHs", "Est", "Closed"}
 ====
